@@ -403,3 +403,37 @@ scalar_harnesses!(byval, any_val, hint_val, option_val, enum_val, seq_val);
 // killed by: reverting 0c4b9b9 (`option enum` back in forward_to_deserialize_any! of `&Value`, the two
 //            methods deleted): option_ref and enum_ref fail; any_ref/hint_ref/seq_ref by the I64 mutation
 scalar_harnesses!(byref, any_ref, hint_ref, option_ref, enum_ref, seq_ref);
+
+// ---- EXPERIMENTS (temporary)
+fn concrete_a() -> Value {
+    let mut data = [0u8; 21];
+    data[0] = b'A';
+    Value { inner: ValueInner::String(SmartString::Small { len: 1, kind: StringKind::Normal, data }) }
+}
+fn transmuted_a() -> Value {
+    let mut raw = [0u8; 24];
+    raw[1] = 1;
+    raw[2] = b'A';
+    unsafe { std::mem::transmute::<[u8; 24], Value>(raw) }
+}
+#[kani::proof]
+#[kani::unwind(4)]
+fn e10() {
+    let v = concrete_a();
+    drop(v);
+}
+#[kani::proof]
+#[kani::unwind(4)]
+fn e11() {
+    expect_ok(vd::any(transmuted_a(), Rec), Seen::Str(1, [b'A', 0]));
+}
+#[kani::proof]
+#[kani::unwind(4)]
+fn e12() {
+    expect_ok(vd::en(transmuted_a(), EnumRec), EnumSeen::Variant(Seen::Str(1, [b'A', 0]), true));
+}
+#[kani::proof]
+#[kani::unwind(2)]
+fn e13() {
+    expect_ok(vd::any(concrete_a(), Rec), Seen::Str(1, [b'A', 0]));
+}
